@@ -9,8 +9,8 @@ from ..report import Rule, RuleCtx
 from .. import tables
 from ..tables import Atom
 from . import cmpcore
-from .c19_norm import normalise, inline_helpers
-from .c19_site import r5
+from .c19_norm import normalise, normal_form
+from .c19_site import r5, r6
 
 UNIVERSAL = 'mesonbuild/utils/universal.py'
 
@@ -46,6 +46,14 @@ ASSUMPTIONS = ['operator.lt/gt/le/ge/eq/ne and Python tuple/int/str comparison b
 PREFIXES = {'>=': 'ge', '<=': 'le', '!=': 'ne', '==': 'eq', '=': 'eq', '>': 'gt', '<': 'lt'}
 
 
+ANCHORED = {'_version_extract_cmpop'}       # helpers that have a table of their own: their calls stay calls
+
+
+def _nf(mod: T.Any, fn: T.Any, cls: T.Optional[str] = None, calls: T.Iterable[str] = ()) -> T.Any:
+    """The normal form all tables are extracted from (see c19_norm.normal_form)."""
+    return normal_form(fn, mod.tree, cls=cls, calls=calls, skip=ANCHORED - {fn.name})
+
+
 def r1(ctx: RuleCtx) -> None:
     mod = ctx.repo.module(UNIVERSAL)
     core = cmpcore.one_core(ctx, mod, 'Version')
@@ -54,7 +62,7 @@ def r1(ctx: RuleCtx) -> None:
 
 def r2(ctx: RuleCtx) -> None:
     mod = ctx.repo.module(UNIVERSAL)
-    keys = cmpcore.ranking_keys(ctx, mod, 'Version', '__cmp')
+    keys = cmpcore.ranking_keys(ctx, mod, 'Version')
     want = [('isinstance(@, int)', 'asc'), ('@', 'asc'), ('len(@)', 'asc')]
     # ==, < and > describe one relation only if "all ranking keys equal" is the same as __eq__ (R1: __eq__/__hash__ compare the raw
     # field): a component may be ranked by its kind, by itself and by the length of the field, never through another projection
@@ -64,7 +72,7 @@ def r2(ctx: RuleCtx) -> None:
                       f'compare the raw components: unless that projection is one-to-one, for two versions that differ only under {foreign[0]} neither <, == nor > holds (<= and >= both hold); '
                       f'in any case the order is no longer [kind, value, length]')
     else:
-        ctx.require(keys == want, f'Version ranking keys {keys}', mod, 'Version.__cmp', 'ranking keys',
+        ctx.require(keys == want, f'Version ranking keys {keys}', mod, 'Version', 'ranking keys',
                     f'ranking keys are {keys}; reference (kind: int above str, value ascending, longer is greater) is {want}')
     # tokens: digits become int, letters stay str (the producer is found by role and followed into helpers)
     from .c19_tokens import check_tokens
@@ -146,16 +154,30 @@ def r3(ctx: RuleCtx) -> None:
     fn = mod.func('_version_extract_cmpop')
     # locals resolved by their reaching definition: the if/elif chain with `cmpop = ..; vstr2 = vstr2[n:]` and a
     # single trailing return gives the same rows as early returns of `(operator.X, vstr2[n:].strip())`
-    tab = tables.extract(normalise(fn), inline=False, name='_version_extract_cmpop')
+    tab = tables.extract(_nf(mod, fn), inline=False, name='_version_extract_cmpop')
     pre_atoms: T.Dict[Atom, str] = {}
+    subjects: T.Set[str] = set()
     for a in tab.atoms():
         if a.kind == 'truth':
             e = ast.parse(a.args[0], mode='eval').body
-            if isinstance(e, ast.Call) and isinstance(e.func, ast.Attribute) and e.func.attr == 'startswith' and norm(e.func.value) == 'ARG1' \
+            if isinstance(e, ast.Call) and isinstance(e.func, ast.Attribute) and e.func.attr == 'startswith' \
+                    and norm(e.func.value) in ('ARG1', 'ARG1.strip()', 'ARG1.lstrip()') \
                     and len(e.args) == 1 and isinstance(e.args[0], ast.Constant) and isinstance(e.args[0].value, str):
                 pre_atoms[a] = e.args[0].value
+                subjects.add(norm(e.func.value))
                 continue
         raise Undecided(f'_version_extract_cmpop: unknown atom {a!r}')
+    if len(subjects) > 1:
+        raise Undecided(f'_version_extract_cmpop: prefixes are tested on different texts {sorted(subjects)}')
+    # whitespace: every row strips the remainder ('>= 1.0' is '>=1.0'), i.e. the function declares blanks around the version
+    # insignificant; then blanks BEFORE the operator must not decide which operator is selected (' >=1.0' would silently become '==')
+    stripped_rest = [r for r in tab.rows if r.outcome[0] == 'return' and '.strip()' in r.outcome[1]]
+    if stripped_rest and len(stripped_rest) == len(tab.rows):
+        ctx.require(subjects <= {'ARG1.strip()', 'ARG1.lstrip()'}, 'the operator prefix is looked for after leading blanks were removed', mod, '_version_extract_cmpop',
+                    'operator prefix tested on the unstripped text',
+                    'the remainder is stripped of blanks but the operator prefixes are tested on the unstripped text: with leading blanks no prefix matches and the '
+                    'constraint silently turns into an equality test (version_compare("2.0", " >=1.0") is False, version_compare("1.0", " !=1.0") is True; '
+                    'e.g. the parts of ">=1.0, <2.0".split(","))', fn)
     ctx.floor('operator prefixes tested', len(pre_atoms), 7)
     # a documented prefix that is not tested shows up below as a wrong row for the strings that start with it;
     # a tested prefix that is not documented is an operator meson does not have
@@ -211,7 +233,7 @@ def _r3_version_compare(ctx: RuleCtx, mod: T.Any) -> None:
     if len(params) != 2:
         raise Undecided('version_compare: expected (lhs, constraint)')
     lhs, rhs = params
-    vcn = normalise(vc)
+    vcn = _nf(mod, vc, calls={'Version'})
     ops: T.Set[str] = set()
     rests: T.Set[str] = set()
     for st in walk_no_nested(vcn, include_root=False):
@@ -296,12 +318,119 @@ def _partition_polarity(fnn: ast.AST, comp: ast.AST, lhs: str) -> T.Optional[boo
     return None
 
 
+def _all_hold(e: ast.AST, lhs: str) -> T.Optional[bool]:
+    """`all(version_compare(lhs, r) for r in S)` / `not any(not version_compare(lhs, r) for r in S)` -> True;
+    `any(version_compare(..) ..)` / `not all(..)` ... -> False (a verdict, but not "all hold"); None: another shape."""
+    neg = False
+    while isinstance(e, ast.UnaryOp) and isinstance(e.op, ast.Not):
+        e, neg = e.operand, not neg
+    if not (isinstance(e, ast.Call) and isinstance(e.func, ast.Name) and e.func.id in ('all', 'any') and len(e.args) == 1 and not e.keywords
+            and isinstance(e.args[0], (ast.GeneratorExp, ast.ListComp)) and len(e.args[0].generators) == 1 and not e.args[0].generators[0].ifs
+            and isinstance(e.args[0].generators[0].target, ast.Name)):
+        return None
+    var = e.args[0].generators[0].target.id
+    atom, pol = tables.canon(e.args[0].elt, True)
+    if atom != _truth(f'version_compare({lhs}, {var})'):
+        return None
+    # all(P) ; not any(not P)  == every requirement holds
+    return (e.func.id == 'all' and pol and not neg) or (e.func.id == 'any' and not pol and neg)
+
+
+MATERIALISE = {'list', 'tuple', 'sorted', 'set', 'frozenset'}
+DRAIN = MATERIALISE | {'any', 'all', 'sum', 'min', 'max', 'map', 'filter', 'zip', 'enumerate', 'iter', 'next', 'join', 'reversed', 'dict'}
+HARMLESS = {'isinstance', 'len', 'bool', 'str', 'repr', 'type', 'id', 'hasattr'}
+
+
+def _r3_single_pass(ctx: RuleCtx, mod: T.Any, vm: T.Any, vmn: T.Any) -> None:
+    """The requirements may be any iterable (the signature says Iterable[str]): a generator can be walked once.  On every
+    path the parameter is consumed at most once before it is rebound to a materialised list (typestate raw -> materialised)."""
+    from ..paths import enumerate_paths
+    args = vm.args.posonlyargs + vm.args.args
+    if len(args) != 2:
+        raise Undecided('version_compare_many: expected (version, requirements)')
+    p = args[1].arg
+    ann = norm(args[1].annotation) if args[1].annotation is not None else ''
+    if 'Iterable' not in ann and 'Iterator' not in ann:
+        ctx.ok(f'version_compare_many: `{p}` is not declared as a one-shot iterable')
+        return
+
+    def uses(node: ast.AST) -> T.Tuple[T.List[ast.AST], T.List[ast.AST]]:
+        drains: T.List[ast.AST] = []
+        unknown: T.List[ast.AST] = []
+        parents: T.Dict[int, ast.AST] = {}
+        for n in ast.walk(node):
+            for ch in ast.iter_child_nodes(n):
+                parents[id(ch)] = n
+        for n in ast.walk(node):
+            if not (isinstance(n, ast.Name) and n.id == p and isinstance(n.ctx, ast.Load)):
+                continue
+            par = parents.get(id(n))
+            if isinstance(par, ast.comprehension) and par.iter is n:
+                drains.append(par.iter)
+            elif isinstance(par, ast.Call) and n in par.args and isinstance(par.func, (ast.Name, ast.Attribute)):
+                nm = par.func.id if isinstance(par.func, ast.Name) else par.func.attr
+                if nm in DRAIN:
+                    drains.append(par)
+                elif nm not in HARMLESS:
+                    unknown.append(par)
+            elif isinstance(par, (ast.List, ast.Tuple)) or (isinstance(par, ast.Compare) and all(isinstance(o, (ast.Is, ast.IsNot)) for o in par.ops)):
+                pass              # wrapped into a display / identity test: not walked
+            elif isinstance(par, ast.Starred):
+                drains.append(par)
+            else:
+                unknown.append(par if par is not None else n)
+        return drains, unknown
+    worst: T.Optional[T.List[ast.AST]] = None
+    unknown_all: T.List[ast.AST] = []
+    npaths = 0
+    for path in enumerate_paths(vmn.body, unroll=1):
+        npaths += 1
+        raw = True
+        seen_loops: T.Set[int] = set()
+        drains: T.List[ast.AST] = []
+        for ev in path.events:
+            if not raw or ev.node is None:
+                continue
+            if ev.kind == 'iter':
+                if id(ev.node) not in seen_loops:
+                    seen_loops.add(id(ev.node))
+                    it = ev.node.iter                                   # type: ignore[attr-defined]
+                    if isinstance(it, ast.Name) and it.id == p:
+                        drains.append(ev.node)
+                    else:
+                        d, u = uses(it)
+                        drains += d
+                        unknown_all += u
+                continue
+            node = ev.node
+            rebinds = isinstance(node, ast.Assign) and any(isinstance(t, ast.Name) and t.id == p for t in node.targets)
+            d, u = uses(node.value if rebinds else node)               # type: ignore[attr-defined]
+            drains += d
+            unknown_all += u
+            if rebinds:
+                v = node.value                                          # type: ignore[attr-defined]
+                if isinstance(v, (ast.List, ast.Tuple, ast.ListComp)) or (isinstance(v, ast.Call) and isinstance(v.func, ast.Name) and v.func.id in MATERIALISE):
+                    raw = False
+                else:
+                    raise Undecided(f'version_compare_many: `{p}` is rebound to {short(v)}')
+        if len(drains) > 1 and (worst is None or len(drains) > len(worst)):
+            worst = drains
+    if worst is not None:
+        ctx.violation(mod, 'version_compare_many', worst[1], f'`{p}` (declared {ann}) is walked {len(worst)} times on one path ({"; ".join(short(x, 60) for x in worst)}): '
+                      f'a generator is empty the second time, so requirements are lost', worst[1])
+    elif unknown_all:
+        raise Undecided(f'version_compare_many: cannot tell whether {short(unknown_all[0])} walks `{p}`')
+    else:
+        ctx.ok(f'version_compare_many: `{p}` is walked at most once on each of {npaths} paths')
+
+
 def _r3_compare_many(ctx: RuleCtx, mod: T.Any) -> None:
     """version_compare_many: a requirement goes to the failed list iff version_compare is false; the verdict is
     'the failed list is empty'.  The two lists are identified by their role (appended to in the loop rows, or built
     as a filtering comprehension), not by their name."""
     vm = mod.func('version_compare_many')
-    vmn = normalise(vm)
+    vmn = _nf(mod, vm)
+    _r3_single_pass(ctx, mod, vm, vmn)
     lhs = (vm.args.posonlyargs + vm.args.args)[0].arg
     role: T.Dict[bool, T.Set[str]] = {True: set(), False: set()}
     loops = [s for s in ast.walk(vmn) if isinstance(s, ast.For)]
@@ -349,6 +478,11 @@ def _r3_compare_many(ctx: RuleCtx, mod: T.Any) -> None:
         ctx.require(roles_of(good) == {True}, f'version_compare_many: 3rd result `{good}` holds the satisfied requirements', mod, 'version_compare_many', ret,
                     f'the list returned as "found" (`{good}`) receives the requirements for which version_compare is '
                     f'{" and ".join(str(x) for x in sorted(roles_of(good)))}')
+        held = _all_hold(v.elts[0], lhs)
+        if held is not None:
+            ctx.require(held, 'version_compare_many: verdict is "every requirement holds"', mod, 'version_compare_many', ret,
+                        f'the overall verdict `{norm(v.elts[0])}` is true when some requirement holds / none holds, not when all hold')
+            continue
         em = _emptiness(v.elts[0])
         if em is None or em[1] not in (good, failed):
             raise Undecided(f'version_compare_many: cannot read the verdict {short(v.elts[0])}')
@@ -381,7 +515,7 @@ def _effs(row: tables.Row) -> T.List[str]:
 def r4_contains(ctx: RuleCtx) -> None:
     mod = ctx.repo.module(UNIVERSAL)
     fn = mod.func('Range.__contains__')
-    tab = tables.extract(normalise(fn), inline=False, bool_returns=True, name='Range.__contains__')
+    tab = tables.extract(_nf(mod, fn, 'Range'), inline=False, bool_returns=True, name='Range.__contains__')
     sem = {
         _truth('self.is_empty'): 'empty',
         Atom('is', ('self.min', 'None')): 'min_none', Atom('is', ('self.max', 'None')): 'max_none',
@@ -442,7 +576,7 @@ def _compare(ctx: RuleCtx, mod: T.Any, qn: str, fn: ast.AST, tab: tables.Table, 
 def r4_post_init(ctx: RuleCtx) -> None:
     mod = ctx.repo.module(UNIVERSAL)
     fn = mod.func('Range.__post_init__')
-    tab = tables.extract(normalise(fn), inline=False, effects=_assign_effects, name='Range.__post_init__')
+    tab = tables.extract(_nf(mod, fn, 'Range'), inline=False, effects=_assign_effects, name='Range.__post_init__')
     sem = {
         Atom('is', ('self.min', 'None')): 'min_none', Atom('is', ('self.max', 'None')): 'max_none',
         _truth('self.min_eq'): 'min_eq', _truth('self.max_eq'): 'max_eq',
@@ -479,19 +613,42 @@ def r4_post_init(ctx: RuleCtx) -> None:
     _compare(ctx, mod, 'Range.__post_init__', fn, tab, sem, view, ref, got)
 
 
+def _bool_in_world(e: ast.AST, w: T.Dict[Atom, bool]) -> T.Optional[bool]:
+    """Truth of a boolean combination of atoms in a world (and/or/not/conditional expression/constants); None when an
+    atom of it is not part of the world."""
+    if isinstance(e, ast.Constant) and isinstance(e.value, bool):
+        return e.value
+    if isinstance(e, ast.UnaryOp) and isinstance(e.op, ast.Not):
+        v = _bool_in_world(e.operand, w)
+        return None if v is None else not v
+    if isinstance(e, ast.BoolOp):
+        vals = [_bool_in_world(x, w) for x in e.values]
+        if any(x is None for x in vals):
+            return None
+        return all(vals) if isinstance(e.op, ast.And) else any(vals)
+    if isinstance(e, ast.IfExp):
+        c = _bool_in_world(e.test, w)
+        return None if c is None else _bool_in_world(e.body if c else e.orelse, w)
+    if isinstance(e, ast.Call) and norm(e.func) == 'bool' and len(e.args) == 1:
+        return _bool_in_world(e.args[0], w)
+    atom, pol = tables.canon(e, True)
+    if atom in w:
+        return w[atom] == pol
+    return None
+
+
 def r4_intersect(ctx: RuleCtx) -> None:
-    """Range.intersect as ONE table: private helpers called for effect (`result._intersect_min(..)`) are inlined first,
-    so the table is the same whether the bound logic lives in helpers or in intersect itself."""
+    """Range.intersect as ONE table (private helpers inlined), judged on the *final state* of the result in every world:
+    which bound it holds and the truth of its inclusivity flag, not the text of the stores that produce them."""
     mod = ctx.repo.module(UNIVERSAL)
     fn = mod.func('Range.intersect')
-    meths = mod.methods('Range')
-    helpers = {k: v for k, v in meths.items() if k.startswith('_') and not (k.startswith('__') and k.endswith('__'))}
-    tab = tables.extract(normalise(inline_helpers(fn, helpers), module=mod.tree), inline=False, effects=_assign_effects, name='Range.intersect')
+    tab = tables.extract(_nf(mod, fn, 'Range'), inline=False, effects=_assign_effects, name='Range.intersect')
     res_names = {e.split(':=')[0].strip() for r in tab.rows for e in _effs(r) if e.endswith(':= copy.copy(self)') or e.endswith(':= copy(self)')}
     if len(res_names) != 1:
         raise Undecided(f'Range.intersect: the working copy of self was not found (candidates {sorted(res_names)})')
     res = next(iter(res_names))
     sem: T.Dict[Atom, str] = {_truth('ARG1.is_empty'): 'x_empty', _truth('self.is_empty'): 'self_empty'}
+    flags: T.Dict[str, T.Tuple[Atom, Atom]] = {}
     for side in ('min', 'max'):
         mine, theirs = f'{res}.{side}', f'ARG1.{side}'
         sem[Atom('is', (theirs, 'None'))] = f'x{side}_none'
@@ -501,85 +658,104 @@ def r4_intersect(ctx: RuleCtx) -> None:
         sem[Atom('cmp', tighter)] = f'{side}_tighter'
         sem[Atom('cmp', looser)] = f'{side}_looser'
         sem[Atom('cmp', ('eq', *sorted((mine, theirs))))] = f'{side}_equal'
+        flags[side] = (_truth(f'ARG1.{side}_eq'), _truth(f'{res}.{side}_eq'))
+        sem[flags[side][0]] = f'x{side}_eq'
+        sem[flags[side][1]] = f'r{side}_eq'
+    unknown = [a for a in tab.atoms() if a not in sem]
+    # a bound of the result that receives ANOTHER field (of either range) is wrong on every path that stores it
+    fields = {'min', 'max', 'min_eq', 'max_eq', 'is_empty'}
+    for r in tab.rows:
+        for e in _effs(r):
+            t, _, v = (x.strip() for x in e.partition(':='))
+            if t.startswith(res + '.') and t[len(res) + 1:] in fields and '.' in v and v.split('.')[0] in ('ARG1', res, 'self') and v.split('.', 1)[1] in fields \
+                    and v.split('.', 1)[1] != t[len(res) + 1:]:
+                ctx.violation(mod, 'Range.intersect', e, f'`{e}`: the {t[len(res) + 1:]} of the result receives the {v.split(".", 1)[1]} of a range (path `{r!r}`)'[:500],
+                              r.path.events[-1].node if r.path.events else fn)
+                return
+    if unknown:
+        raise Undecided(f'Range.intersect: atoms outside the reference vocabulary: {unknown}')
 
-    def view(w: T.Dict[Atom, bool]) -> T.Any:
-        return {k: w.get(a) for a, k in sem.items()}
-
-    def ref(v: T.Dict[str, T.Any]) -> T.Any:
-        if v['x_empty']:
-            return ('copy-x',)
-        if v['self_empty']:
-            return ('copy-self',)
-        out = ['copy-self']
-        for side in ('min', 'max'):
-            if v[f'x{side}_none']:
-                continue
-            if v[f'r{side}_none'] or v[f'{side}_tighter']:
-                out.append(f'{side}:replace')       # the strictly tighter bound (or any bound over none) replaces
-            elif v[f'{side}_equal']:
-                out.append(f'{side}:and')           # equal bounds: inclusive only if both are
-        return (*out, 'normalise')
-
-    def got(r: tables.Row) -> T.Any:
+    def final(r: tables.Row, w: T.Dict[Atom, bool]) -> T.Any:
+        """('copy-x',) / (copied, {side: (bound, flag)}, normalised) for one row in one world."""
         if r.outcome[0] != 'return':
             return r.outcome
         ret = r.outcome[1]
         if ret in ('copy.copy(ARG1)', 'copy(ARG1)'):
-            return ('copy-x',) if not r.effects else ('copy-x', 'after effects')
-        seq: T.List[str] = []
-        sides: T.Dict[str, T.Set[str]] = {}
+            if r.effects:
+                raise Undecided(f'Range.intersect: row {r!r} has effects before returning a copy of the other range')
+            return ('copy-x',)
+        if ret != res:
+            raise Undecided(f'Range.intersect: cannot read the result {ret} of row {r!r}')
+        copied = normalised = False
+        state: T.Dict[str, T.Any] = {}
+        for side in ('min', 'max'):
+            state[side] = ['keep', w[flags[side][1]]]
         for e in _effs(r):
             if e in (f'{res} := copy.copy(self)', f'{res} := copy(self)'):
-                seq.append('copy-self')
-            elif e == f'call {res}.__post_init__()':
-                seq.append('normalise')
-            else:
-                side = next((sd for sd in ('min', 'max') if e.startswith(f'{res}.{sd} :=') or e.startswith(f'{res}.{sd}_eq :=')), None)
-                if side is None:
-                    raise Undecided(f'Range.intersect: cannot classify the effect `{e}` of row {r!r}')
-                if side not in sides:
-                    seq.append(f'{side}:')
-                sides.setdefault(side, set()).add(e)
-                if 'normalise' in seq:
-                    seq.append(f'{side} changed after normalising')
-        out = []
-        for x in seq:
-            if x.endswith(':'):
-                side = x[:-1]
-                f, fe = f'{res}.{side}', f'{res}.{side}_eq'
-                effs = sides[side]
-                if effs == {f'{f} := ARG1.{side}', f'{fe} := ARG1.{side}_eq'}:
-                    x = f'{side}:replace'
-                elif effs in ({f'{fe} := ARG1.{side}_eq and {fe}'}, {f'{fe} := {fe} and ARG1.{side}_eq'}):
-                    x = f'{side}:and'
-                else:
-                    x = f'{side}:other(' + '; '.join(sorted(effs)) + ')'
-            out.append(x)
-        if ret != res:
-            out.append('returns:' + ret)
-        return tuple(out)
-    # whatever the path: a bound of the result only ever receives the same bound of the other range, its inclusivity flag the
-    # other flag or the conjunction of both (a store of anything else is wrong on every path that performs it)
-    allowed: T.Dict[str, T.Set[str]] = {}
-    for side in ('min', 'max'):
-        allowed[f'{res}.{side}'] = {f'ARG1.{side}'}
-        allowed[f'{res}.{side}_eq'] = {f'ARG1.{side}_eq', f'ARG1.{side}_eq and {res}.{side}_eq', f'{res}.{side}_eq and ARG1.{side}_eq'}
-    bad_store: T.Dict[str, tables.Row] = {}
-    for r in tab.rows:
-        for e in _effs(r):
+                copied = True
+                continue
+            if e == f'call {res}.__post_init__()':
+                normalised = True
+                continue
             t, _, v = (x.strip() for x in e.partition(':='))
-            if t in allowed and v not in allowed[t]:
-                bad_store.setdefault(e, r)
-    for e, r in bad_store.items():
-        ctx.violation(mod, 'Range.intersect', e, f'`{e}`: intersect stores this into the result on the path `{r!r}`'[:500] + f'; the reference only stores {sorted(allowed[e.split(":=")[0].strip()])} there',
-                      r.path.events[-1].node if r.path.events else fn)
-    if bad_store:
-        return
-    _compare(ctx, mod, 'Range.intersect', fn, tab, sem, view, ref, got, list(sem))
+            side = next((sd for sd in ('min', 'max') if t in (f'{res}.{sd}', f'{res}.{sd}_eq')), None)
+            if side is None or normalised:
+                raise Undecided(f'Range.intersect: cannot classify the effect `{e}` of row {r!r}')
+            if t == f'{res}.{side}':
+                if v == f'ARG1.{side}':
+                    state[side][0] = 'x'
+                elif v != f'{res}.{side}' or state[side][0] != 'keep':
+                    raise Undecided(f'Range.intersect: cannot read the bound stored by `{e}`')
+            else:
+                if state[side][1] is None:
+                    raise Undecided(f'Range.intersect: `{e}` after an unreadable flag')
+                # the flag is read before it is written in this store: evaluate over the *current* value
+                w2 = dict(w)
+                w2[flags[side][1]] = state[side][1]
+                b = _bool_in_world(ast.parse(v, mode='eval').body, w2)
+                if b is None:
+                    raise Undecided(f'Range.intersect: cannot read the flag stored by `{e}`')
+                state[side][1] = b
+        return (copied, {k: tuple(x) for k, x in state.items()}, normalised)
+
+    n = 0
+    bad: T.Dict[str, T.Tuple[tables.Row, str]] = {}
+    for w in tab.worlds(list(sem)):
+        v = {k: w.get(a) for a, k in sem.items()}
+        rows = tab.fire(w)
+        if len(rows) != 1:
+            raise Undecided(f'Range.intersect: {len(rows)} rows fire in a world')
+        n += 1
+        got = final(rows[0], w)
+        if v['x_empty']:
+            want: T.Any = ('copy-x',)
+        else:
+            st: T.Dict[str, T.Any] = {}
+            for side in ('min', 'max'):
+                x_eq, r_eq = v[f'x{side}_eq'], v[f'r{side}_eq']
+                if v['self_empty'] or v[f'x{side}_none']:
+                    st[side] = ('keep', r_eq)
+                elif v[f'r{side}_none'] or v[f'{side}_tighter']:
+                    st[side] = ('x', x_eq)                 # the strictly tighter bound (or any bound over none) replaces
+                elif v[f'{side}_equal']:
+                    st[side] = ('keep', x_eq and r_eq)     # equal bounds: inclusive only if both are
+                    if isinstance(got, tuple) and len(got) == 3 and got[1][side][0] == 'x':
+                        st[side] = ('x', x_eq and r_eq)    # storing the equal bound again changes nothing
+                else:
+                    st[side] = ('keep', r_eq)
+            want = (True, st, not v['self_empty'])
+        if got != want and repr(rows[0]) not in bad:
+            bad[repr(rows[0])] = (rows[0], f'yields {got}; the reference range algebra requires {want} for '
+                                  f'{ {k: x for k, x in v.items() if x is not None and any(sem[a] == k for a in rows[0].conds if a in sem)} }')
+    for key, (row, msg) in bad.items():
+        ctx.violation(mod, 'Range.intersect', key, f'row `{key}` {msg}'[:900], row.path.events[-1].node if row.path.events else fn)
+    if not bad:
+        ctx.ok(f'Range.intersect: {len(tab.rows)} rows agree with the reference on {n} worlds (final bound and inclusivity of both sides)')
+    ctx.note(f'Range.intersect: table {tab.dump()}')
 
     fn = mod.func('Range.always')
     # a returned local (`verdict = False ... return verdict`) is resolved by its reaching definition on the path
-    tab = tables.extract(normalise(fn, calls={'intersect'}), inline=False, name='Range.always')
+    tab = tables.extract(_nf(mod, fn, 'Range', calls={'intersect'}), inline=False, name='Range.always')
     nar = 'self.intersect(ARG1)'
     sem2 = {_truth(f'{nar}.is_empty'): 'empty', Atom('cmp', ('eq', nar, 'self')): 'same', Atom('cmp', ('eq', 'self', nar)): 'same'}
 
@@ -642,15 +818,47 @@ class _RangeReader:
     def lookup(self, e: ast.AST) -> T.Optional[str]:
         """`T.get(op)` / `T[op]` -> 'T'."""
         if isinstance(e, ast.Call) and isinstance(e.func, ast.Attribute) and e.func.attr == 'get' and isinstance(e.func.value, ast.Name) \
-                and len(e.args) == 1 and not e.keywords and norm(e.args[0]) == self.opvar:
+                and (len(e.args) == 1 or (len(e.args) == 2 and isinstance(e.args[1], ast.Constant) and e.args[1].value is None)) \
+                and not e.keywords and norm(e.args[0]) == self.opvar:
             return e.func.value.id
         if isinstance(e, ast.Subscript) and isinstance(e.value, ast.Name) and norm(e.slice) == self.opvar:
             return e.value.id
         return None
 
-    def value(self, e: ast.AST) -> str:
+    def op_test(self, e: ast.AST, op: str) -> T.Optional[bool]:
+        """Truth of a test on the operator variable for the operator at hand (`op is operator.ge`, `op == ..`,
+        `op in (operator.ge, operator.gt)`, `not ..`): an atom decided for the class of inputs the row stands for."""
+        if isinstance(e, ast.UnaryOp) and isinstance(e.op, ast.Not):
+            inner = self.op_test(e.operand, op)
+            return None if inner is None else not inner
+        if isinstance(e, ast.Compare) and len(e.ops) == 1:
+            l, r, o = e.left, e.comparators[0], e.ops[0]
+            if norm(r) == self.opvar and isinstance(o, (ast.Is, ast.IsNot, ast.Eq, ast.NotEq)):
+                l, r = r, l
+            if norm(l) != self.opvar:
+                return None
+            if isinstance(o, (ast.Is, ast.IsNot, ast.Eq, ast.NotEq)) and (attr_chain(r) or '').startswith('operator.'):
+                same = attr_chain(r) == f'operator.{op}'
+                return same if isinstance(o, (ast.Is, ast.Eq)) else not same
+            if isinstance(o, (ast.In, ast.NotIn)) and isinstance(r, (ast.Tuple, ast.List, ast.Set)) and all((attr_chain(x) or '').startswith('operator.') for x in r.elts):
+                inside = f'operator.{op}' in {attr_chain(x) for x in r.elts}
+                return inside if isinstance(o, ast.In) else not inside
+        return None
+
+    def value(self, e: ast.AST, op: str = '') -> str:
+        """A constructor argument as one of: 'V' (the Version of the check), a constant, or the decided truth of a test on
+        the operator.  Anything else is not understood (Undecided), never compared as text."""
         t = norm(e)
-        return 'V' if t == f'Version({self.vvar})' else t
+        if t == f'Version({self.vvar})':
+            return 'V'
+        if isinstance(e, ast.Constant) and (e.value is None or isinstance(e.value, bool)):
+            return t
+        if isinstance(e, ast.IfExp) and self.op_test(e.test, op) is not None:
+            return self.value(e.body if self.op_test(e.test, op) else e.orelse, op)
+        known = self.op_test(e, op)
+        if known is not None:
+            return str(known)
+        raise Undecided(f'version_check_to_range: cannot read the constructor argument `{t}`')
 
     def terms(self, e: ast.AST, op: str) -> T.List[Term]:
         if isinstance(e, ast.Call) and isinstance(e.func, ast.Attribute) and e.func.attr == 'intersect' and len(e.args) == 1 and not e.keywords:
@@ -659,8 +867,8 @@ class _RangeReader:
             names = [f for f, _ in self.fields]
             if len(e.args) > len(names) or any(k.arg is None for k in e.keywords) or any(isinstance(a, ast.Starred) for a in e.args):
                 raise Undecided(f'version_check_to_range: cannot read the arguments of {short(e)}')
-            kw = {names[i]: self.value(a) for i, a in enumerate(e.args)}
-            kw.update({k.arg: self.value(k.value) for k in e.keywords})     # type: ignore[misc]
+            kw = {names[i]: self.value(a, op) for i, a in enumerate(e.args)}
+            kw.update({k.arg: self.value(k.value, op) for k in e.keywords})     # type: ignore[misc]
             return [_term(kw, self.fields)]
         if isinstance(e, ast.Call):
             tname = self.lookup(e.func)
@@ -708,7 +916,7 @@ def _resolve_effects(effs: T.List[str]) -> T.Dict[str, ast.AST]:
 def r4_check_to_range(ctx: RuleCtx) -> None:
     mod = ctx.repo.module(UNIVERSAL)
     fn = mod.func('version_check_to_range')
-    fnn = normalise(fn, calls={'Version', 'Range', 'intersect'})
+    fnn = _nf(mod, fn, calls={'Version', 'Range', 'intersect'})
     loops = [s for s in fnn.body if isinstance(s, ast.For)]
     if len(loops) != 1:
         raise Undecided('version_check_to_range: expected one loop over the checks')
@@ -751,6 +959,19 @@ def r4_check_to_range(ctx: RuleCtx) -> None:
         for a, v in r.conds.items():
             if a.kind == 'is' and a.args[0] == opvar and a.args[1].startswith('operator.'):
                 (op_true if v else op_false).add(a.args[1].split('.', 1)[1])
+            elif a.kind == 'cmp' and a.args[0] == 'eq' and opvar in a.args[1:] and any(x.startswith('operator.') for x in a.args[1:]):
+                (op_true if v else op_false).add(next(x for x in a.args[1:] if x.startswith('operator.')).split('.', 1)[1])
+            elif a.kind == 'in' and a.args[0] == opvar and not a.args[1].isidentifier():
+                members = ast.parse(a.args[1], mode='eval').body
+                if not (isinstance(members, (ast.Tuple, ast.List, ast.Set)) and all((attr_chain(x) or '').startswith('operator.') for x in members.elts)):
+                    raise Undecided(f'version_check_to_range: cannot read the operator set in {a!r}')
+                ms = {attr_chain(x).split('.', 1)[1] for x in members.elts}      # type: ignore[union-attr]
+                if v:
+                    present.append(ms)
+                else:
+                    op_false |= ms
+            elif opvar in names_in_text(repr(a)) and not (a.kind == 'is' and a.args[1] == 'None') and not (a.kind == 'in' and a.args[0] == opvar):
+                raise Undecided(f'version_check_to_range: cannot read the test {a!r} on the operator')
             tname, has = None, v
             if a.kind == 'is' and a.args[1] == 'None':
                 tname, has = rd.lookup(ast.parse(a.args[0], mode='eval').body), not v
@@ -836,7 +1057,7 @@ def r4_check_to_range(ctx: RuleCtx) -> None:
                 f'operators with a row: {sorted(seen_ops)}; expected {sorted(ALL_OPS)}')
     # condition_with_min
     fn2 = mod.func('version_compare_condition_with_min')
-    tab2 = tables.extract(normalise(fn2), inline=False, name='version_compare_condition_with_min')
+    tab2 = tables.extract(_nf(mod, fn2, calls={'Version'}), inline=False, name='version_compare_condition_with_min')
     for r in tab2.rows:
         mn = [(a, v) for a, v in r.conds.items() if a.kind == 'is' and a.args[1] == 'None' and a.args[0].endswith('.min')]
         if not mn:
@@ -876,5 +1097,6 @@ RULES = [
     Rule('C19.R4b', 'Range.__post_init__ emptiness table', r4_post_init),
     Rule('C19.R4c', 'Range.intersect (private helpers inlined) / always tables', r4_intersect),
     Rule('C19.R4d', 'version_check_to_range operator table', r4_check_to_range),
+    Rule('C19.R6', 'call sites: the 3-tuple of version_compare_many is never used as a truth value', r6),
     Rule('C19.R5', 'if-clause narrowing: always() receiver/argument roles, narrowed range stored, saved range restored on every path', r5),
 ]
